@@ -105,11 +105,15 @@ def sublists {α : Type} : List α → List (List α)
   | [] => [[]]
   | x :: xs => let r := sublists xs; r ++ r.map (x :: ·)
 
-/-- every compatible combination ("haplotype") of the usable records, merged pairs included -/
+/-- the usable records of `t` together with the merged forms of adjacent pairs -/
+def recordPool (t : TxIn) (vs : List Var) : List Var :=
+  let us := vs.filterMap (usable t)
+  us ++ mergedPairs us
+
+/-- every compatible combination ("haplotype") of the usable records, merged pairs included:
+any sub-collection of the pool that, put in ascending order, is strictly separated -/
 def haplotypes (t : TxIn) (vs : List Var) : List (List Var) :=
-  let us := sortByStart (vs.filterMap (usable t))
-  let pool := sortByStart (us ++ mergedPairs us)
-  (sublists pool).filter fun h => !h.isEmpty && separated h
+  ((sublists (recordPool t vs)).map sortByStart).filter fun h => !h.isEmpty && separated h
 
 /-- the transcript sequence carrying haplotype `h` (ascending, separated) -/
 def applyHap (seq : List Char) (h : List Var) : List Char :=
